@@ -341,3 +341,25 @@ def insert_before_function(relpath: str, defname: str, new_src: str):
         return False
 
     return edit(relpath, None, fn)
+
+
+
+def normalisation_twins(prefix: str, relpath: str, defpath: str, stmt: str, target: str, inplace: bool, expected: List[str]) -> List["Variant"]:
+    """Twins for one own-sum normalisation statement (`T /= np.sum(T)` or `T = T / np.sum(T)`): the same normalisation
+    in other spellings (benign) and divisions by something that is not the vector's own sum (bad).  In-place anchors stay
+    in place (re-binding a name is a different thing for an array the caller owns)."""
+    T = target
+    op = (lambda rhs: f"{T} /= {rhs}") if inplace else (lambda rhs: f"{T} = {T} / {rhs}")
+    benign = [("method-sum", op(f"{T}.sum()")),
+              ("total-bound-first", f"_total = np.sum({T})\n" + op("_total")),
+              ("builtin-free-keywords", op(f"np.sum({T}, axis=None)"))]
+    if not inplace:
+        benign.append(("np-divide", f"{T} = np.divide({T}, np.sum({T}))"))
+        benign.append(("times-reciprocal", f"{T} = {T} * (1.0 / np.sum({T}))"))
+    bad = [("by-max", op(f"np.max({T})")), ("by-count", op(f"len({T})")), ("by-sum-of-squares", op(f"np.sum({T} ** 2)")), ("by-mean", op(f"np.mean({T})"))]
+    out = []
+    for n, src in benign:
+        out.append(Variant(f"{prefix}-benign-normalise-{n}", "benign", replace_stmt(relpath, defpath, stmt, src)))
+    for n, src in bad:
+        out.append(Variant(f"{prefix}-normalise-{n}", "bad", replace_stmt(relpath, defpath, stmt, src), list(expected)))
+    return out
